@@ -78,6 +78,22 @@ func (f *frontServer) note(req *dns.Msg) {
 	f.mu.Unlock()
 }
 
+// Names: every question name that reached the attacker (lower case).
+func (f *frontServer) Names() []string {
+	f.mu.Lock()
+	defer f.mu.Unlock()
+	seen := map[string]bool{}
+	var out []string
+	for k := range f.byQ {
+		n := k[:strings.LastIndex(k, "/")]
+		if !seen[n] {
+			seen[n] = true
+			out = append(out, n)
+		}
+	}
+	return out
+}
+
 // Asked: how often (name, type) reached the attacker.
 func (f *frontServer) Asked(name string, t uint16) int {
 	f.mu.Lock()
